@@ -168,6 +168,10 @@ def gen(rng):
     ctl = rng.random() < 0.2
     sc = {"kind": kind, "cls": cls, "hex": p.hex(), "cuts": cuts, "skip_utf8": skip, "api": api, "sizes": sizes,
           "ctl_between": ctl, "seed": rng.randrange(1 << 30)}
+    if kind == "text" and rng.random() < 0.15:
+        sc["fire_cont"] = True
+        sc["api"] = "recv_data"
+        return sc
     if kind == "close":
         sc["code"] = rng.choice((1000, 1000, 1001, 1011, 3000, 3999, 4000, 4999))
     elif not skip and api != "recv_frame" and rng.random() < 0.35:
@@ -275,8 +279,11 @@ def run(sc, choices=None):
         raise InvalidScenario(str(e))
     if skip and api == "recv" and kind == "text":
         raise InvalidScenario("recv() with validation off is not pinned down for ill-formed text")
+    fire = bool(sc.get("fire_cont"))
+    if fire and (kind != "text" or api != "recv_data" or then is not None):
+        raise InvalidScenario("per-fragment delivery is judged for text messages read with recv_data()")
     cfg = {"api": api, "timeout": 4 * S, "end": "eof", "skip_utf8": skip, "sizes": list(sc.get("sizes", ())),
-           "max_calls": len(frames) + 3}
+           "max_calls": len(frames) + 3, "fire_cont": fire}
     if then is not None:
         cfg["continue_after_exc"] = True
         cfg["max_calls"] = len(frames) + 5
@@ -287,7 +294,28 @@ def run(sc, choices=None):
     trunc = (not ok) and _is_truncation(p)
     pcls = "well_formed" if ok else ("cut_short_at_end" if trunc else "ill_formed")
     ctx = f"{kind}/{'validation_off' if skip else 'validation_on'}/{pcls}"
-    if then is None:
+    if fire:
+        # per-fragment delivery (fire_cont_frame=True): fragments are handed over before the message is complete, so
+        # "nothing is delivered" cannot be demanded of the earlier fragments; what can: a well-formed message passes with
+        # exactly its bytes, an ill-formed one makes a receive call raise before its last fragment is handed over -
+        # also when it is a single unfragmented frame
+        ctx += "/per_fragment"
+        got = bytearray()
+        excs = []
+        for o in out["obs"]:
+            if o[0] == "ret" and o[1][0] == "t" and o[1][1][1] in (0, 1):
+                got += bytes.fromhex(o[1][2][1])
+            elif o[0] == "exc":
+                excs.append(o[1])
+        nfrag = sum(1 for f in frames if f.opcode in (0, 1))
+        nret = sum(1 for o in out["obs"] if o[0] == "ret" and o[1][0] == "t" and o[1][1][1] in (0, 1))
+        if ok or skip:
+            if bytes(got) != p or [e for e in excs if e != "WebSocketConnectionClosedException"]:
+                res.violate("legal_input_rejected" if ok else "observation_differs", ctx, f"fragments delivered {bytes(got)[:24]!r} ({nret} of {nfrag}), exceptions {excs}")
+        else:
+            if nret >= nfrag or not any(e in ("WebSocketPayloadException", "WebSocketProtocolException") for e in excs):
+                res.violate("illegal_input_accepted", ctx, f"ill-formed text: {nret} of {nfrag} fragments handed over, exceptions {excs}")
+    elif then is None:
         check_model(res, out, frames, api, False, skip, "eof", ctx)
     else:
         # message 1 judged on its own, message 2 judged on its own: whatever happened to the first must not leak into the second
@@ -306,7 +334,7 @@ def run(sc, choices=None):
         if 0 < c < len(p) and (p[c] & 0xC0) == 0x80:
             inside = True
     res.nontrivial = (not ok) or inside
-    res.sig = repr((sc.get("cls"), pcls, min(len(p), 12), tuple(("in" if 0 < c < len(p) and (p[c] & 0xC0) == 0x80 else "at") for c in cuts), api, skip, kind))
+    res.sig = repr((fire, sc.get("cls"), pcls, min(len(p), 12), tuple(("in" if 0 < c < len(p) and (p[c] & 0xC0) == 0x80 else "at") for c in cuts), api, skip, kind))
     if inside:
         res.probes["split_inside_code_point"] = 1
     res.probes["payload_" + pcls] = 1
@@ -316,7 +344,7 @@ def run(sc, choices=None):
 def sample_view(sc, r):
     if sc.get("kind") == "sweep":
         return {"validator_sweep": sc, "strings": r.info.get("sweep_strings")}
-    return {k: sc.get(k) for k in ("kind", "cls", "hex", "cuts", "skip_utf8", "api", "sizes", "code", "then")}
+    return {k: sc.get(k) for k in ("kind", "cls", "hex", "cuts", "skip_utf8", "api", "sizes", "code", "then", "fire_cont")}
 
 
 # ---- object history: the same scenarios on a WebSocket object whose earlier connection was lost in the middle of a frame or
